@@ -55,6 +55,13 @@ def hard_inputs():
         eps = F(0) if k == 0 else F(1, 2 ** k)
         up = [[F(0), F(1, 2), F(1)], [F(1) - eps, F(0) - eps, F(1) - eps]]   # lowest point (1/2, 1/2 - eps)
         out.append(("Curve.intersect", [enc_arr(par), enc_arr(up), "GEOMETRIC"]))
+    # collinear overlapping straight segments in every relative position and direction (the compiled parallel_lines_parameters writes
+    # its answer into the module-level intersections workspace: a slot it forgets to write keeps what an earlier call left there -
+    # seed c14-5)
+    seg = lambda u, v: [[F(u), F(v)], [F(2 * u), F(2 * v)]]
+    for (p0, p1, q0, q1) in [(0, 4, -2, 2), (0, 4, 2, 6), (0, 4, 1, 3), (0, 4, -1, 5), (0, 4, 2, -2), (0, 4, 6, 2), (4, 0, -2, 2), (0, 4, 4, 8),
+                             (0, 4, -4, 0), (1, 3, 0, 4)]:
+        out.append(("Curve.intersect", [enc_arr(seg(p0, p1)), enc_arr(seg(q0, q1)), "GEOMETRIC"]))
     # cubic with an inflection crossing, ordinary pairs, coincident (raises / flagged) pairs
     cub = [[F(0), F(1, 4), F(3, 4), F(1)], [F(0), F(2), F(-2), F(0)]]
     out.append(("Curve.intersect", [enc_arr(cub), enc_arr([[F(0), F(1)], [F(0), F(0)]]), "GEOMETRIC"]))
